@@ -18,7 +18,7 @@ LEVELS = {
         "technique": "Coq proof: decision procedure <-> declarative spec, for all inputs and all map iteration orders; differential correspondence",
     },
     "C12": {
-        "text": "Coq theorems for all strings and replacement maps: the hand-written matcher accepts exactly the declarative token shape and at most one token per start position; Transform is characterised as leftmost, non-overlapping, single pass with replacement text never rescanned (transform_step), token-free strings unchanged, unknown dimension => failure. Field scope (command, label, plugins, env values, unknown fields; not key, env names, matrix, signature) by Tie theorems over the scope table regenerated from the interpolate methods. Tied to Go's regexp by exhaustive macro-symbol strings through InterpolateMatrixPermutation.",
+        "text": "Coq theorems for all strings and replacement maps: the hand-written matcher accepts exactly the declarative token shape and at most one token per start position; Transform is characterised as leftmost, non-overlapping, single pass with replacement text never rescanned (transform_step), token-free strings unchanged, unknown dimension => failure. Field scope (command, label, plugins, env values, unknown fields; not key, env names, matrix, signature) by Tie theorems over the scope table regenerated from the interpolate methods. Tied to Go's regexp by exhaustive macro-symbol strings through InterpolateMatrixPermutation. Step level (Model/MatrixStep.v = CommandStep.InterpolateMatrixPermutation): accepted_step_content (each in-scope field of the result is the image of its source under the single-pass replacement T: command, label, plugin sources, every string and key in plugin configs, env values with names and order fixed, unknown fields; key, matrix, signature and cache unchanged), accepted_step_token_free (no `{{` left when values are open-brace-free and every `{{` of the inputs opens a token; both hypotheses shown necessary by counterexamples: a single pass can assemble a new token from replacement text and its surroundings), unknown_token_fails_iff and result_trichotomy (rejected iff validation rejects; otherwise fails exactly when an in-scope string names a dimension the permutation lacks), empty permutation = identity.",
         "note": "trusted: Go regexp engine (modelled scanner tied by exhaustive small scope), translator for the scope table",
         "technique": "Coq proof: scanner soundness/completeness/uniqueness + single-pass decomposition; generated-table Tie for field scope; exhaustive correspondence vs regexp",
     },
